@@ -574,6 +574,116 @@ int main(int argc, char** argv) {
         }
     }
 
+    // ================================================================ irfft must not depend on earlier (rejected) calls
+    // In ONE process/thread: results of irfft(X,n) / IfftPlanR(n).solve(X) before and after rejected odd-length calls
+    // (n+1, n-1; free function and plan constructor) and after valid calls of another length must be bit-identical and
+    // satisfy the value oracle.  Rel pass: in-process (a wrong value is not a crash); ASan pass: forked.
+    {
+        Len La, Lb, Lc;
+        for (int n = 2; n <= N; n += 2) {
+            if (!ctx.take("irfft.after_reject", P().kv("n", n))) continue;
+            const int m = n + 2, l = n - 2;
+            La.init(n);
+            Lb.init(m);
+            if (l >= 2) Lc.init(l);
+            run_case(ctx, boxed, "irfft", [&](Sink& s) {
+                s.nontrivial();
+                const std::string wk = "irfft around rejected odd-length calls: rel l2 err/(n eps)";
+                struct Sig {
+                    int n = 0;
+                    std::vector<cld> x, X;
+                    arr_cmplx Xa;
+                    arr_real r0;
+                };
+                auto make = [&](const Len& L_, Sig& g) {
+                    g.n = L_.n;
+                    Letters(L_, false).geo_decay(g.x, g.X);
+                    g.Xa = to_arr(g.X);
+                };
+                Sig A, B, C;
+                make(La, A);
+                make(Lb, B);
+                if (l >= 2) make(Lc, C);
+                auto first = [&](Sig& g) {
+                    g.r0 = irfft(g.Xa, g.n);
+                    judge(s, "irfft(X,n)", "irfft-value", wk, g.r0, g.x, g.n, fmt("first call, len=%d", g.n));
+                };
+                auto again = [&](Sig& g, const std::string& hist, bool plan) {
+                    const char* site = plan ? "IfftPlanR::solve" : "irfft(X,n)";
+                    arr_real r = plan ? IfftPlanR(g.n).solve(g.Xa) : irfft(g.Xa, g.n);
+                    s.tick();
+                    if (!bitsame(r, g.r0)) {
+                        int d = 0;
+                        while (d < r.size() && d < g.r0.size() && biteq(r[d], g.r0[d])) ++d;
+                        s.fail(site, "history-dependence",
+                               fmt("len=%d after [%s]: result differs from the first irfft(X,%d) at element %d: %.17g vs %.17g", g.n, hist.c_str(), g.n, d,
+                                   d < r.size() ? r[d] : NAN, d < g.r0.size() ? g.r0[d] : NAN),
+                               "bit-identical result for identical arguments", P().kv("history", hist).kv("len", g.n));
+                    }
+                    judge(s, site, "irfft-value-after-history", wk, r, g.x, g.n, hist, P().kv("history", hist).kv("len", g.n));
+                };
+                auto reject = [&](int odd, bool via_plan) {
+                    if (odd < 1) return;
+                    arr_cmplx Xo(odd);
+                    for (int k = 0; k < odd; ++k) Xo[k] = cmplx_t(1.0 + k, k ? 0.5 : 0.0);
+                    bool threw = false;
+                    try {
+                        if (via_plan) {
+                            IfftPlanR p(odd);
+                        } else {
+                            arr_real y = irfft(Xo, odd);
+                        }
+                    } catch (const std::exception&) {
+                        threw = true;
+                    } catch (...) {
+                        threw = true;
+                    }
+                    s.tick();
+                    if (!threw)
+                        s.fail(via_plan ? "IfftPlanR" : "irfft(X,n)", "odd-not-rejected", fmt("odd n=%d accepted", odd), "a C++ exception", P().kv("odd", odd));
+                };
+                first(A);
+                // H1: n, odd above, odd below (function and constructor) -> n
+                reject(n + 1, false);
+                reject(n - 1, false);
+                reject(n + 1, true);
+                reject(n - 1, true);
+                again(A, "n; irfft(n+1), irfft(n-1), IfftPlanR(n+1), IfftPlanR(n-1) rejected; n", false);
+                again(A, "n; rejected odd calls; IfftPlanR(n)", true);
+                // H2: another even length, odd n+1 rejected by the function -> n, then the even length above
+                first(B);
+                reject(n + 1, false);
+                again(A, "n+2; irfft(n+1) rejected; n", false);
+                again(B, "n+2; irfft(n+1) rejected; n; n+2", false);
+                // H3: same through the plan constructor
+                reject(n + 1, true);
+                again(A, "n+2; IfftPlanR(n+1) rejected; IfftPlanR(n)", true);
+                again(B, "IfftPlanR(n+1) rejected; n; IfftPlanR(n+2)", true);
+                // H4/H5: odd n-1 -> the even lengths below (n-2) and above (n)
+                if (l >= 2) {
+                    first(C);
+                    again(B, "n-2; n+2", false);
+                    reject(n - 1, false);
+                    again(C, "n+2; irfft(n-1) rejected; n-2", false);
+                    again(A, "n+2; irfft(n-1) rejected; n-2; n", false);
+                    again(B, "n; n+2", false);
+                    reject(n - 1, true);
+                    again(C, "n+2; IfftPlanR(n-1) rejected; IfftPlanR(n-2)", true);
+                    again(A, "IfftPlanR(n-1) rejected; n-2; IfftPlanR(n)", true);
+                } else {
+                    again(B, "n; n+2", false);
+                    reject(n - 1, false);   // n = 2: odd length 1
+                    again(A, "n+2; irfft(1) rejected; n", false);
+                }
+                // H6: odd first, then the even length above it, then the one below
+                again(B, "n; n+2", false);
+                reject(n + 1, false);
+                again(B, "irfft(n+1) rejected; n+2", false);
+                again(A, "irfft(n+1) rejected; n+2; n", false);
+            });
+        }
+    }
+
     // ================================================================ irfft(X, n), IfftPlanR(n) for odd n: must throw
     for (int lo = 1; lo <= NREJ + 1; lo += 64) {
         const int hi = std::min(lo + 64, NREJ + 2);
@@ -663,32 +773,53 @@ int main(int argc, char** argv) {
     }
 
     // ================================================================ stft / istft
+    // Oracle (condition-aware, no weight threshold): every sample i covered by complete frames whose reference weight
+    // w_i = sum_f win^(a+1) (long double, from the window passed to the library) is > 0 must satisfy
+    //   |xr[i] - x[i]| <= tol_i = 1e-9 max|x| + 64 log2(nfft) eps * max_f ||frame_f*win||_2 * sum_f |win^a tap| / w_i
+    // (f over the frames covering i: the forward/inverse FFT pair returns frame_f*win with an l2 error of at most
+    // c log2(nfft) eps ||frame_f*win||_2, which the synthesis tap and the division by w_i amplify).  A sample is judged
+    // only when tol_i <= 1e-3 max|x|, i.e. when rounding alone cannot explain a visible error; the others are counted.
+    // Weights in (0, 16 nseg eps max(w_max,1)] (e.g. the -1.4e-17 end taps of a symmetric Blackman window, squared) are at
+    // the rounding level of the weight accumulation itself and are read as zero (weaker reading, counted in a note).
     {
-        std::vector<int> nffts = {8, 12, 16, 20, 24, 32, 48, 64};
+        struct Grid {
+            int nfft;
+            bool sparse;   // only periodic hann/blackman, overlap nfft/2 and 3nfft/4, onesided, one unaligned length
+        };
+        std::vector<Grid> grids;
+        for (int v : {8, 12, 16, 20, 24, 32, 48, 64}) grids.push_back({v, false});
         if (T) {
-            nffts.push_back(128);
-            nffts.push_back(256);
-            nffts.push_back(1024);
+            for (int v : {128, 256, 512, 1024}) grids.push_back({v, false});
+        } else {
+            grids.push_back({512, true});
+            grids.push_back({1024, true});
         }
-        if (asan_pass) nffts = {8, 12, 16};
+        if (asan_pass) grids = {{8, false}, {12, false}, {16, false}};
         const StftRange ranges[3] = {StftRange::Onesided, StftRange::Twosided, StftRange::Centered};
         const char* rname[3] = {"onesided", "twosided", "centered"};
         const OverlapMethod methods[2] = {OverlapMethod::Ola, OverlapMethod::Wola};
         const char* mname[2] = {"ola", "wola"};
         const int NIMPX = 96;
-        for (int nfft : nffts) {
+        for (const Grid& G : grids) {
+            const int nfft = G.nfft;
             if (!ctx.wants("istft.roundtrip") && !ctx.wants("istft.finite")) break;
             const std::vector<Win> wins = windows(nfft);
+            const ld clog = 64.0L * log2l((ld)nfft) * (ld)EPS;
             for (const Win& W : wins) {
+                if (G.sparse && W.name != "hann-per" && W.name != "blackman-per") continue;
                 const int nwin = nfft;
                 for (int ov = 0; ov < nwin; ++ov) {
+                    if (G.sparse && ov != nfft / 2 && ov != 3 * nfft / 4) continue;
                     bool acc = false;
                     try {
                         acc = iscola(W.w, ov, OverlapMethod::Ola) || iscola(W.w, ov, OverlapMethod::Wola);
                     } catch (const std::exception&) {
                         acc = false;
                     }
-                    if (!acc) continue;
+                    if (!acc) {
+                        if (G.sparse && ctx.shard == 0 && !ctx.replay) ctx.note(pfx + fmt("istft sparse grid: %s nfft=%d overlap=%d not accepted by iscola", W.name.c_str(), nfft, ov));
+                        continue;
+                    }
                     const int hop = nwin - ov;
                     std::vector<int> rs = {0};
                     if (hop > 1) rs.push_back(1);
@@ -698,6 +829,7 @@ int main(int argc, char** argv) {
                             for (int j : {0, 1, 3})
                                 for (int rr : rs)
                                     for (int chk = 0; chk < 2; ++chk) {
+                                        if (G.sparse && (ir != 0 || j != 3 || rr != hop - 1)) continue;
                                         const char* check = chk == 0 ? "istft.finite" : "istft.roundtrip";
                                         if (!ctx.take(check, P().kv("nfft", nfft).kv("win", W.name).kv("overlap", ov).kv("range", rname[ir]).kv("method", mname[im]).kv("j", j).kv("r", rr)))
                                             continue;
@@ -707,18 +839,26 @@ int main(int argc, char** argv) {
                                         const int a = im == 0 ? 0 : 1;
                                         run_case(ctx, boxed, "istft", [&](Sink& s) {
                                             s.nontrivial();
-                                            if (chk == 1) s.note(pfx + "istft " + W.name + " " + rname[ir] + " " + mname[im]);
-                                            // reference accumulated weight sum win^(a+1)
-                                            std::vector<ld> wt((size_t)xlen, 0);
+                                            if (chk == 1) s.note(pfx + "istft " + W.name + " " + rname[ir] + " " + mname[im] + (nfft >= 512 ? " nfft>=512" : ""));
+                                            // reference accumulated weight sum win^(a+1) and sum of |synthesis taps| win^a
+                                            std::vector<ld> wt((size_t)xlen, 0), taps((size_t)xlen, 0);
                                             for (int f = 0; f < nseg; ++f)
-                                                for (int i = 0; i < nwin; ++i) wt[(size_t)(f * hop + i)] += a ? (ld)W.w[i] * (ld)W.w[i] : (ld)W.w[i];
+                                                for (int i = 0; i < nwin; ++i) {
+                                                    const ld w = (ld)W.w[i];
+                                                    wt[(size_t)(f * hop + i)] += a ? w * w : w;
+                                                    taps[(size_t)(f * hop + i)] += a ? fabsl(w) : (ld)1;
+                                                }
                                             ld wmax = 0;
                                             int nzero = 0;
                                             for (ld v : wt) {
                                                 wmax = std::max(wmax, v);
-                                                if (v == 0) ++nzero;
+                                                if (!(v > 0)) ++nzero;
                                             }
                                             if (nzero && chk == 0) s.note(pfx + "istft case with zero-weight samples");
+                                            // "non-zero weight" is read numerically: a weight at or below the rounding level of a double-precision
+                                            // accumulation of nseg window powers (16 nseg eps max(w_max, 1)) cannot be told from zero
+                                            const ld wfloor = 16.0L * nseg * (ld)EPS * std::max(wmax, (ld)1);
+                                            long long judged = 0, skipped = 0, below = 0;
                                             const int nlet = 2 + (nx <= NIMPX ? nx : 0);
                                             for (int l = 0; l < nlet; ++l) {
                                                 arr_real xs(nx);
@@ -742,30 +882,61 @@ int main(int argc, char** argv) {
                                                     for (int i = 0; i < xr.size(); ++i)
                                                         if (!std::isfinite(xr[i])) {
                                                             const double wi = i < xlen ? (double)wt[(size_t)i] : 0.0;
-                                                            s.fail("istft", wi == 0 ? "nonfinite-at-zero-weight" : "nonfinite",
+                                                            s.fail("istft", "nonfinite",
                                                                    fmt("xr[%d] = %g (reference accumulated weight there = %g), %d frames, output length %d", i, xr[i], wi, (int)S.size(), xr.size()),
                                                                    "only finite values", P().kv("letter", nm).kv("i", i).kv("weight", wi).kv("nx", nx).kv("nframes", nseg));
                                                             break;
                                                         }
                                                     continue;
                                                 }
-                                                double worst = 0;
+                                                // max over the covering frames of || frame * win ||_2
+                                                std::vector<ld> fmax((size_t)xlen, 0);
+                                                for (int f = 0; f < nseg; ++f) {
+                                                    ld e2 = 0;
+                                                    for (int i = 0; i < nwin; ++i) {
+                                                        const ld v = (ld)xs[f * hop + i] * (ld)W.w[i];
+                                                        e2 += v * v;
+                                                    }
+                                                    const ld nf = sqrtl(e2);
+                                                    for (int i = 0; i < nwin; ++i) fmax[(size_t)(f * hop + i)] = std::max(fmax[(size_t)(f * hop + i)], nf);
+                                                }
+                                                double worst = 0, tiny = 0;
                                                 for (int i = 0; i < xlen; ++i) {
-                                                    if (!(wt[(size_t)i] >= 1e-3L * wmax)) continue;
+                                                    const ld wi = wt[(size_t)i];
+                                                    if (!(wi > 0)) continue;
+                                                    if (!(wi > wfloor)) {
+                                                        ++below;
+                                                        continue;
+                                                    }
+                                                    const ld tol = 1e-9L * xmax + clog * fmax[(size_t)i] * taps[(size_t)i] / wi;
+                                                    if (!(tol <= 1e-3L * xmax)) {
+                                                        ++skipped;
+                                                        continue;
+                                                    }
+                                                    ++judged;
                                                     if (i >= xr.size()) {
                                                         s.fail("istft", "size", fmt("output has %d samples, %d frames", xr.size(), (int)S.size()),
-                                                               fmt("sample %d is covered by a complete frame with weight %Lg", i, wt[(size_t)i]), P().kv("letter", nm).kv("i", i).kv("nx", nx));
+                                                               fmt("sample %d is covered by a complete frame with weight %Lg", i, wi), P().kv("letter", nm).kv("i", i).kv("nx", nx));
                                                         break;
                                                     }
-                                                    const double e = std::fabs(xr[i] - xs[i]) / (1e-9 * xmax);
+                                                    const double e = (double)(fabsl((ld)xr[i] - (ld)xs[i]) / tol);
                                                     if (!(e <= 1.0)) {
-                                                        s.fail("istft", "istft-value", fmt("xr[%d] = %.17g, |diff| = %.3g * 1e-9*max|x|, weight %Lg of max %Lg", i, xr[i], e, wt[(size_t)i], wmax),
-                                                               fmt("x[%d] = %.17g within 1e-9*max|x|", i, xs[i]), P().kv("letter", nm).kv("i", i).kv("weight", (double)wt[(size_t)i]).kv("nx", nx));
+                                                        s.fail("istft", "istft-value",
+                                                               fmt("xr[%d] = %.17g, |diff| = %.3g * tol_i (tol_i = %.3Lg, max|x| = %g), weight %Lg (max %Lg)", i, xr[i], e, tol, xmax, wi, wmax),
+                                                               fmt("x[%d] = %.17g within tol_i (weight is non-zero)", i, xs[i]),
+                                                               P().kv("letter", nm).kv("i", i).kv("weight", (double)wi).kv("nx", nx));
                                                         break;
                                                     }
                                                     worst = std::max(worst, e);
+                                                    tiny = std::max(tiny, (double)-log10l(wi / wmax));
                                                 }
-                                                s.worst("istft: |xr-x|/(1e-9 max|x|) where weight >= 1e-3 max", worst);
+                                                s.worst("istft: |xr-x|/tol_i (condition-aware tolerance)", worst);
+                                                s.worst("istft: -log10(smallest judged weight / max weight)", tiny);
+                                            }
+                                            if (chk == 1) {
+                                                s.note(pfx + "istft samples judged (weight > 0, tol_i <= 1e-3 max|x|)", judged);
+                                                if (skipped) s.note(pfx + "istft samples with weight > 0 not judged (tol_i > 1e-3 max|x|)", skipped);
+                                                if (below) s.note(pfx + "istft samples with 0 < weight <= 16 nseg eps max(wmax,1) read as zero weight", below);
                                             }
                                         });
                                     }
